@@ -247,6 +247,18 @@ class Sectionable(BaseObject):
         """
         return self._sections
 
+    def _validate_child(self, section):
+        """
+        Raises a ValueError if adding *section* as a child would make
+        it its own ancestor.
+        """
+        node = self
+        while node is not None:
+            if node is section:
+                raise ValueError("A Section cannot be added to itself "
+                                 "or to one of its own sub-Sections.")
+            node = node.parent
+
     def insert(self, position, section):
         """
         Insert a Section at the child-list position. A ValueError will be raised,
@@ -260,6 +272,7 @@ class Sectionable(BaseObject):
             if section.name in self._sections:
                 raise ValueError("Section with name '%s' already exists." % section.name)
 
+            self._validate_child(section)
             self._sections.insert(position, section)
             section._parent = self
         else:
@@ -273,6 +286,7 @@ class Sectionable(BaseObject):
         """
         from odml.section import BaseSection
         if isinstance(section, BaseSection):
+            self._validate_child(section)
             self._sections.append(section)
             section._parent = self
         elif isinstance(section, Iterable) and not isinstance(section, str):
@@ -297,6 +311,8 @@ class Sectionable(BaseObject):
 
             if isinstance(sec, BaseSection) and sec.name in self._sections:
                 raise KeyError("Section with name '%s' already exists." % sec.name)
+
+            self._validate_child(sec)
 
         for sec in sec_list:
             self.append(sec)
